@@ -31,11 +31,11 @@ ASSUMPTIONS = ["run(until=E) for an E that fails raises E's exception; this is a
                "PYTHONHASHSEED values are sampled, not enumerated"]
 FLOORS = {"quick": {"plans": 2000, "numeric_stops": 2000, "stops_coinciding": 500, "until_event_calls": 1000,
                     "until_event_late_waiter": 50, "step_calls": 1000, "refused_until": 100,
-                    "hashseed_digests_compared": 600, "inprocess_reruns": 2000, "net_digests_compared": 60},
+                    "hashseed_digests_compared": 600, "inprocess_reruns": 2000, "net_digests_compared": 60, "net_split_plans": 400},
           "thorough": {"plans": 40000, "numeric_stops": 40000, "stops_coinciding": 10000,
                        "until_event_calls": 20000, "until_event_late_waiter": 1000, "step_calls": 20000,
                        "refused_until": 2000, "hashseed_digests_compared": 10000, "inprocess_reruns": 40000,
-                       "net_digests_compared": 300}}
+                       "net_digests_compared": 300, "net_split_plans": 10000}}
 PROFILE = {"weights": {"timeout": 5, "zero": 1, "wait": 3, "succeed": 2.5, "fail": 0.6, "spawn": 1.5, "join": 2,
                        "interrupt": 1.5, "cb": 0.7, "cond": 1.5},
            "max_top": 5, "max_child_scripts": 3, "min_ev": 1, "max_ev": 3, "p_exact": 0.6, "p_raise": 0.08,
@@ -256,6 +256,38 @@ def one_case(ctx, prog, plan_, stats):
     return viol, eff, T
 
 
+def net_split_part(ctx, n):
+    """network pipelines under random split plans: the sink trace must equal the uninterrupted one"""
+    import random as _r
+    from vlib import netscen
+    kinds = ("wfq-str", "drr-str", "sp", "port-wire-loss", "red", "hub", "switch")
+    for i in range(n):
+        key = f"C03-netsplit:{ctx.seed}:{ctx.shard}:{i}"
+        name, whole = netscen.scenario(_r.Random(key), None, kinds)
+        times = sorted({e[0] for e in whole if isinstance(e[0], (int, float))})
+        rng = ctx.rng("netsplit", i)
+        stops = []
+        for _ in range(rng.randint(1, 5)):
+            if rng.random() < 0.7 and times:
+                t = rng.choice(times)
+                stops.append(["num", t if rng.random() < 0.6 else round(t + rng.choice([0.013, 0.37, 1.01]), 3)])
+            else:
+                stops.append(["steps", rng.randint(1, 40)])
+        nums = sorted(x[1] for x in stops if x[0] == "num")
+        it = iter(nums)
+        stops = [["num", next(it)] if x[0] == "num" else x for x in stops]
+        name2, split = netscen.scenario(_r.Random(key), stops, kinds)
+        ctx.count("net_split_plans")
+        if split != whole:
+            j = kern.first_diff(split, whole)
+            ctx.violation(f"network-run-not-transparent-to-stops[{name}]",
+                          "splitting a network simulation by run(until=t)/step() calls changed what the sink observed",
+                          {"scenario": name, "stops": stops, "first_diff": j,
+                           "split": split[j] if j is not None and j < len(split) else None,
+                           "whole": whole[j] if j is not None and j < len(whole) else None},
+                          {"netsplit_case": [ctx.seed, ctx.shard, i]})
+
+
 def hashseed_part(ctx, n, seeds):
     """digests of kernel programs and network scenarios in fresh interpreters"""
     outs = {}
@@ -298,6 +330,7 @@ def run_shard(ctx):
         ctx.case_done(case, nt)
     for k, v in stats.items():
         ctx.count(k, v)
+    net_split_part(ctx, 150 if ctx.tier == "quick" else 1500)
     if ctx.tier == "quick":
         hashseed_part(ctx, 100, [0, 1, 4242])
     else:
@@ -307,6 +340,8 @@ def run_shard(ctx):
 def replay(ctx, case):
     if "digest_case" in case:
         return hashseed_part(ctx, 100, [0, 1, 4242])
+    if "netsplit_case" in case:
+        return net_split_part(ctx, 150)
     stats = {k: 0 for k in ("plans", "numeric_stops", "stops_coinciding", "until_event_calls",
                             "until_event_late_waiter", "step_calls", "refused_until", "inprocess_reruns", "skipped_many_escapes")}
     viol, _, _ = one_case(ctx, case["program"], case["plan"], stats)
